@@ -86,7 +86,14 @@ func c17Byte(e ast.Expr) (byte, error) {
 		}
 		return byte(r), nil
 	}
-	return 0, fmt.Errorf("not a char literal: %T", e)
+	if x, ok := e.(*ast.BasicLit); ok && x.Kind == token.INT { // e.g. `0: []byte("&#0;")`
+		v, err := strconv.ParseInt(x.Value, 0, 16)
+		if err != nil || v < 0 || v > 255 {
+			return 0, fmt.Errorf("integer key %s does not fit a byte", x.Value)
+		}
+		return byte(v), nil
+	}
+	return 0, fmt.Errorf("not a char or small integer literal: %T", e)
 }
 
 func c17Map(r *Repo, rel, name string) (*ast.CompositeLit, error) {
@@ -134,6 +141,10 @@ func c17Hashes(r *Repo, rel string) (map[string]c17Hash, []c17Hash, error) {
 	haveText := false
 	consts := []c17Hash{}
 	for _, f := range fs {
+		// only the generated perfect-hash file: other files may declare pseudo hashes that are not table rows
+		if !strings.HasSuffix(r.Fset.Position(f.Pos()).Filename, "hash.go") {
+			continue
+		}
 		for _, d := range f.Decls {
 			gd, ok := d.(*ast.GenDecl)
 			if !ok || (gd.Tok != token.CONST && gd.Tok != token.VAR) {
